@@ -5,8 +5,8 @@ CONSTANTS
   RoundMode = "floor"
   SelectMode = "det"
   LegacyBreak = FALSE
-  MetricDefs <- BudMetrics
-  SlotDefs <- BudSlots
+  MetricDefs <- AgentMetrics
+  SlotDefs <- AgentSlots
   Sizes <- Sz13
   WWs = {1, 2}
   MWs = {1}
